@@ -1,6 +1,7 @@
 NP = "np_algo_h"
 _EXIT = "std::process::exit -> common::exit_stub: records 'the daemon stopped', asserts that no step_clock call preceded it, ends the path (inert in native replay)"
 PROP = dict(
+    extractors=['step_clock_call_sites', 'in_startup_only_cleared'],
     functions=[
         "ntp_proto::algorithm::kalman::KalmanClockController::<RecClock>::{steer_offset, check_offset_steer, new} (real code, reached through hooks; RecClock = recording NtpClock of the harness crate)",
         "ntp_proto::config::StepThreshold::is_within, ntp_proto::time_types::NtpDuration::{from_seconds, abs, add_assign, neg, partial_cmp}",
